@@ -646,7 +646,18 @@ func revisionWorld(seed uint64, states []string) *sim.World {
 		w.MustSeed("pkgmgr", map[string]any{"apiVersion": "pkg.crossplane.io/v1", "kind": "ProviderRevision",
 			"metadata": map[string]any{"name": n, "finalizers": []any{finRevision}, "labels": map[string]any{"pkg.crossplane.io/package": fmt.Sprintf("prov%d", i)}},
 			"spec":     map[string]any{"image": fmt.Sprintf("xpkg.example.org/acme/prov%d:v1", i), "desiredState": st, "revision": int64(1)}})
-		pkgs = append(pkgs, map[string]any{"name": n, "apiVersion": "pkg.crossplane.io/v1", "kind": "Provider", "type": "Provider", "source": fmt.Sprintf("xpkg.example.org/acme/prov%d", i), "version": "v1", "dependencies": []any{}})
+		// the lock entry as different Crossplane versions wrote it: with apiVersion+kind (and the
+		// deprecated type), type only (before apiVersion/kind existed), or an older apiVersion
+		entry := map[string]any{"name": n, "source": fmt.Sprintf("xpkg.example.org/acme/prov%d", i), "version": "v1", "dependencies": []any{}}
+		switch (int(seed) + i) % 3 {
+		case 0:
+			entry["apiVersion"], entry["kind"], entry["type"] = "pkg.crossplane.io/v1", "Provider", "Provider"
+		case 1:
+			entry["type"] = "Provider"
+		default:
+			entry["apiVersion"], entry["kind"] = "pkg.crossplane.io/v1beta1", "Provider"
+		}
+		pkgs = append(pkgs, entry)
 	}
 	w.MustSeed("pkgmgr", map[string]any{"apiVersion": "pkg.crossplane.io/v1beta1", "kind": "Lock", "metadata": map[string]any{"name": "lock"}, "packages": pkgs})
 	return w
@@ -684,8 +695,10 @@ func lockMonitor(keys, whats *[]string) func(v *sim.View, ev *sim.Event) {
 func runRevisionLock(c *kit.Ctx) {
 	// (1) fault enumeration: every call index x 6 outcomes of the deletion reconcile, for an active
 	// and an inactive revision, followed by clean retries
-	for _, st := range []string{"Active", "Inactive"} {
-		base := revisionWorld(uint64(c.Seed)*197, []string{st, "Active"})
+	for fi, st := range []string{"Active", "Inactive", "Active", "Inactive", "Active", "Inactive"} {
+		// fi/2 selects how the deleted revision's lock entry was written (three forms)
+		form := fi / 2
+		base := revisionWorld(uint64(c.Seed)*198+uint64(form), []string{st, "Active"})
 		u := base.Client("user")
 		_ = u.Delete(ctx, &unstructured.Unstructured{Object: base.GetObj(sim.Key{Group: "pkg.crossplane.io", Kind: "ProviderRevision", Name: "prov0-rev"})})
 		probe := base.Clone()
@@ -694,7 +707,7 @@ func runRevisionLock(c *kit.Ctx) {
 		n := pcl.Calls()
 		for k := 0; k < n; k++ {
 			for _, out := range sim.EnumFaults {
-				name := fmt.Sprintf("revlock/fault/%s/k%d/%s", st, k, out)
+				name := fmt.Sprintf("revlock/fault/%s/entry-form%d/k%d/%s", st, (int(uint64(c.Seed)*198)+form)%3, k, out)
 				if !c.Want(name) {
 					continue
 				}
